@@ -4,7 +4,7 @@
     [VCall cls args kwargs] of the model universe whose printing (Printers.v)
     and evaluation (PyEval.v) are already modelled.  [std_rebuild] is what
     CPython's constructors make of such a call.  No proofs here. *)
-From PP Require Import Doc PyStr PyVal.
+From PP Require Import Doc PyStr PyVal Printers.
 
 Definition items := list (pyval * pyval).
 
@@ -20,7 +20,11 @@ Inductive stdval :=
 | SChain (c : clsinfo) (maps : list (items * list nat))
 | SProxy (c : clsinfo) (kvs : items) (order : list nat)
 | SExc (c : clsinfo) (args : list pyval)
-| SPartial (c : clsinfo) (func : pyval) (args : list pyval) (kws : list (str * pyval)).
+| SPartial (c : clsinfo) (func : pyval) (args : list pyval) (kws : list (str * pyval))
+| SUuid (c : clsinfo) (text : str)                          (* uuid.UUID: str(value) *)
+| SNamespace (c : clsinfo) (attrs : list (str * pyval)) (order : list nat)
+    (* types.SimpleNamespace: the attributes, and the order sorted() gives their names *)
+| SNamedtuple (c : clsinfo) (fields : list (str * pyval)).   (* zip(cls._fields, value) *)
 
 Definition s_maxlen : str := [109; 97; 120; 108; 101; 110]%N.   (* "maxlen" *)
 
@@ -46,6 +50,9 @@ Definition std_print (x : stdval) : pyval :=
   | SProxy c kvs o => VCall c [VDict kvs o] []
   | SExc c args => VCall c args []
   | SPartial c f args kws => VCall c (f :: args) kws
+  | SUuid c text => VCall c [VStr text] []
+  | SNamespace c attrs o => VCall c [] (reorder attrs o)
+  | SNamedtuple c fields => VCall c [] fields
   end.
 
 (** ---- what the constructors do with such a call -------------------------- *)
@@ -72,7 +79,8 @@ Fixpoint untuples (l : list pyval) : option items :=
 (** deque(iterable, maxlen=m) keeps the LAST m elements *)
 Definition lastn {A} (m : nat) (l : list A) : list A := skipn (length l - m) l.
 
-Inductive skind := KOrdered | KDeque | KDefault | KCounter | KChain | KProxy | KExc | KPartial.
+Inductive skind := KOrdered | KDeque | KDefault | KCounter | KChain | KProxy | KExc | KPartial
+                 | KUuid | KNamespace | KNamedtuple.
 
 Definition undict (v : pyval) : option (items * list nat) :=
   match v with VDict kvs o => Some (kvs, o) | _ => None end.
@@ -95,6 +103,9 @@ Definition std_rebuild (k : skind) (v : pyval) : option stdval :=
   | KProxy, VCall c [VDict kvs o] [] => Some (SProxy c kvs o)
   | KExc, VCall c args [] => Some (SExc c args)
   | KPartial, VCall c (f :: args) kws => Some (SPartial c f args kws)
+  | KUuid, VCall c [VStr text] [] => Some (SUuid c text)
+  | KNamespace, VCall c [] kws => Some (SNamespace c kws [])        (* attributes in keyword order *)
+  | KNamedtuple, VCall c [] kws => Some (SNamedtuple c kws)
   | _, _ => None
   end.
 End Rebuild.
